@@ -547,12 +547,17 @@ def _run_chunks(cmd, chunks, timeout):
         return [f.result() for f in futs]
 
 
-def run_histories(ctx, name, exe, drv, gens, judge_factory=Judge, sample=0, timeout=3000, wf=False, dump="full"):
+def run_histories(ctx, name, exe, drv, gens, judge_factory=Judge, sample=0, timeout=3000, wf=False, dump="full", on_disagree=None):
     """Two passes over independent histories, in parallel chunks: (1) record the OS answers on the real code,
     (2) run the real code and the Lean model on the concretised lines; judge the implementation's answers with the
     property's oracle and compare them line by line with the model's (the protocol of common.correspond, with the
     whole history kept as replay for a failing operation).
-    wf: the driver additionally evaluates the well-formedness predicate WF of Props/C03.lean on every state."""
+    wf: the driver additionally evaluates the well-formedness predicate WF of Props/C03.lean on every state.
+    Optional judge attributes (used by C04): `sig_of` (signature of a failure), `detail` (set by the judge when it fails:
+    added to the replay), `model_side(case, model_answer)` (an oracle of the judge evaluated on the MODEL's own lines;
+    a complaint there is an internal error of the oracle, not a violation of the property).
+    on_disagree(ctx, name, exe, first_disagreement): failing-input search run when the stream disagrees although the
+    oracle is satisfied on every case."""
     hists = [(g.lines if hasattr(g, "lines") else g) for g in gens]
     nchunks = min(12, len(hists)) or 1
     pre = ["wf 1" if wf else "wf 0", "dump " + dump]
@@ -593,6 +598,8 @@ def run_histories(ctx, name, exe, drv, gens, judge_factory=Judge, sample=0, time
                           no_input=True)
             return None
         j0 = judge_factory()
+        sig_fn = getattr(j0, "sig_of", None) or sig_of
+        model_side = getattr(j0, "model_side", None)
         start, failed_here = 0, False
         for i, (c_, a, b) in enumerate(zip(conc, outs_i, outs_m)):
             if c_ == "reset":
@@ -602,10 +609,23 @@ def run_histories(ctx, name, exe, drv, gens, judge_factory=Judge, sample=0, time
                 st[name]["spec_failures"] += 1
                 if not failed_here:
                     failed_here = True
-                    ctx.violation(sig_of(c_, a, why),
-                                  {"stream": name, "why": why, "history": conc[:2] + conc[start:i + 1], "failing_operation": c_,
-                                   "implementation": a[:2000], "model": b[:2000],
-                                   "how_to_replay": "feed the lines of `history` (one per line) to " + exe})
+                    rp = {"stream": name, "why": why, "history": conc[:2] + conc[start:i + 1], "failing_operation": c_,
+                          "implementation": a[:2000], "model": b[:2000],
+                          "how_to_replay": "feed the lines of `history` (one per line) to " + exe}
+                    if getattr(j0, "detail", None):
+                        rp["detail"] = j0.detail
+                    ctx.violation(sig_fn(c_, a, why), rp)
+            if model_side is not None:
+                bug = model_side(c_, b)
+                if bug and not st[name].get("oracle_internal_errors"):
+                    st[name]["oracle_internal_errors"] = 1
+                    ctx.broken.append({"internal_error": "oracle contradicts the model", "stream": name, "case": c_, "what": bug})
+                    ctx.violation({"stream": name, "kind": "internal-error-oracle-vs-model"},
+                                  {"internal_error": bug, "stream": name, "case": c_, "model": b[:2000],
+                                   "history": conc[:2] + conc[start:i + 1],
+                                   "note": "an oracle of the check complains about the MODEL's own answers: the oracle demands more than the "
+                                           "model guarantees. This is a defect of the check, not a violation found in the code"},
+                                  no_input=True)
             if a != b:
                 st[name]["disagreements"] += 1
                 if first_disagreement is None:
@@ -615,6 +635,8 @@ def run_histories(ctx, name, exe, drv, gens, judge_factory=Judge, sample=0, time
                 ctx.sample({"case": c_, "implementation": o_[:400]})
             sample = 0
     if first_disagreement is not None and st[name]["spec_failures"] == 0:
+        if on_disagree is not None:
+            on_disagree(ctx, name, exe, first_disagreement)
         ctx.broken.append({"correspondence": name, "first_disagreement": {k: first_disagreement[k] for k in ("case", "implementation", "model")},
                            "count": st[name]["disagreements"]})
         ctx.violation({"stream": name, "kind": "model-disagreement"},
